@@ -124,12 +124,13 @@ def check(ai, text):
     if not itoks:
         return None
     field = fields.TEXT(analyzer=ana, phrase=True, chars=True, stored=True)
-    schema = fields.Schema(k=fields.ID(stored=True), f=field)
+    # f2: a second field with the same analyzer and text, so that a word of the text can be queried in another field only
+    schema = fields.Schema(k=fields.ID(stored=True), f=field, f2=fields.TEXT(analyzer=ana, phrase=False, stored=False))
     st = RamStorage()
     ix = st.create_index(schema)
     w = ix.writer()
-    w.add_document(k=u"other", f=u"zulu yankee")
-    w.add_document(k=u"doc", f=text)
+    w.add_document(k=u"other", f=u"zulu yankee", f2=u"zulu")
+    w.add_document(k=u"doc", f=text, f2=text)
     w.commit()
     # query time: the index is opened again, so the schema (and with it the analyzer) is the one read back from the TOC
     # (pickle round trip) - what every later process gets (seed C17-3: a stemming filter lost its language there)
@@ -164,7 +165,11 @@ def check(ai, text):
                                         where, words, p0, p0 + n - 1, [(t[0], t[1]) for t in itoks])
             # highlights
             term = itoks[len(itoks) // 2][0]
-            hits = s.search(query.Term("f", term), limit=None, terms=True)
+            # ... together with another word of the text queried in the *other* field only: it is a matched term of f2, not of f,
+            # and must not be marked in the excerpt of f (seed C17-4)
+            others = [t[0] for t in itoks if t[0] != term and not any((t[2] < e and sc_ < t[3]) for tx_, p_, sc_, e in itoks if tx_ == term)]
+            hq = query.Term("f", term) if not others else query.Or([query.Term("f", term), query.Term("f2", others[0])])
+            hits = s.search(hq, limit=None, terms=True)
             hit = [h_ for h_ in hits if h_["k"] == u"doc"][0]
             # a marked span is the source text of one matched token or of a chain of adjacent/overlapping matched tokens
             rngs = sorted(set((sc, ec) for tx, pos, sc, ec in itoks if tx == term))
